@@ -11,7 +11,7 @@
 (*           of class vc in {zero, same, different}                        *)
 (* and as a copy.  The conversion actions move between representations;    *)
 (* every conversion must carry the SAME value (ValuePreserved), a copy     *)
-(* must not share storage with its source (AMutateCopy writes into the copy *)
+(* must not share storage with its source (MutateCopy writes into the copy  *)
 (* and the source is read again), and header-plus-data JSON whose version  *)
 (* hash is non-zero and different from the local definition must be        *)
 (* refused (VersionRefused) -- and only that one.                          *)
@@ -109,9 +109,9 @@ GenInv == ~(GenOn /\ Terminal) \/ PrintT("PATH " \o ToJson([k |-> kind, v |-> vc
 
 (***************************************************************************)
 (* Judging an observed execution of a path (Codec_Trace.tla).              *)
-(* o[i] is the observation after step i, aggregated over the classes the   *)
-(* path was executed on: o[i].st in {"ok", "differs", "refused", "raised", *)
-(* "shares", "skipped"}.                                                   *)
+(* o is one observation made after a step on some class: "ok", "differs",  *)
+(* "refused", "raised", "shares" or "skipped"; spec_rep is the             *)
+(* representation the specification reaches with that step.                *)
 (***************************************************************************)
 StepClauses(a, spec_rep, o) ==
   IF o = "skipped" THEN {}
